@@ -76,6 +76,9 @@ fn hist_fens(current: &Board) -> String {
 }
 
 pub struct PosCheck<'a> {
+    /// the states being checked descend from `Board::default()` by real moves (not from a FEN):
+    /// a violation is then replayed by its move path from the default board
+    pub from_default: std::sync::atomic::AtomicBool,
     pub rep: &'a Report,
     pub which: Which,
     pub tally: Tally,
@@ -119,6 +122,7 @@ fn count_checkers(p: &Pos) -> usize {
 impl<'a> PosCheck<'a> {
     pub fn new(_mg: &MoveGenerator, rep: &'a Report, which: Which) -> Self {
         PosCheck {
+            from_default: std::sync::atomic::AtomicBool::new(false),
             rep,
             which,
             tally: Tally::default(),
@@ -128,6 +132,24 @@ impl<'a> PosCheck<'a> {
     }
 
     fn violate(&self, p_fen: &str, what: &str, text: String, detail: J) {
+        if self.from_default.load(std::sync::atomic::Ordering::Relaxed) {
+            let path = path_from_start(p_fen, 5);
+            let cmd = match self.which {
+                Which::C17 => "c17-path",
+                Which::C02 => "c02-path",
+                _ => "c01-path",
+            };
+            self.rep.violation(
+                format!("{} default-board fen={} {}", self.which.id(), p_fen, what),
+                format!("board reached from Board::default() by the moves [{}]: {}", path.as_ref().map(|m| m.iter().map(|x| x.uci()).collect::<Vec<_>>().join(" ")).unwrap_or_else(|| "?".into()), text),
+                match path {
+                    Some(m) => vec![cmd.to_string(), "--moves".into(), m.iter().map(|x| x.uci()).collect::<Vec<_>>().join(" ")],
+                    None => vec![],
+                },
+                detail,
+            );
+            return;
+        }
         self.rep.violation(
             format!("{} fen={} {}", self.which.id(), p_fen, what),
             text,
@@ -405,6 +427,84 @@ impl<'a> Visitor for PosCheck<'a> {
     }
 }
 
+/// Shortest move path (in the rules model) from the start position to the position with this
+/// four-field FEN, at most `max` plies; only called when a violation is being reported.
+pub fn path_from_start(fen4: &str, max: usize) -> Option<Vec<Mv>> {
+    use std::collections::HashMap;
+    let start = Pos::start();
+    if start.fen4() == fen4 {
+        return Some(vec![]);
+    }
+    let mut parent: HashMap<String, (String, Mv)> = HashMap::new();
+    let mut layer: Vec<Pos> = vec![start.clone()];
+    parent.insert(start.fen4(), (String::new(), Mv { from: 0, to: 0, promo: None }));
+    for _ in 0..max {
+        let mut next = Vec::new();
+        for p in &layer {
+            let pf = p.fen4();
+            for m in p.legal_moves() {
+                let n = p.make(m);
+                let nf = n.fen4();
+                if parent.contains_key(&nf) {
+                    continue;
+                }
+                parent.insert(nf.clone(), (pf.clone(), m));
+                if nf == fen4 {
+                    let mut path = vec![];
+                    let mut cur = nf;
+                    while let Some((pp, mv)) = parent.get(&cur) {
+                        if pp.is_empty() {
+                            break;
+                        }
+                        path.push(*mv);
+                        cur = pp.clone();
+                    }
+                    path.reverse();
+                    return Some(path);
+                }
+                next.push(n);
+            }
+        }
+        layer = next;
+    }
+    None
+}
+
+/// Replay of a violation found on a board that descends from `Board::default()`: the default
+/// board, the moves played on it by the real `make_move`, then the same check of the final state.
+pub fn replay_path(which: Which, moves: &str) -> i32 {
+    let rep = Report::new(which.id(), "quick", 0);
+    let pc = PosCheck::new(crate::eng::tl_mg(), &rep, which);
+    pc.from_default.store(true, std::sync::atomic::Ordering::Relaxed);
+    let mut b = Board::default();
+    for t in moves.split_whitespace() {
+        let ms = crate::eng::tl_mg().generate_moves(&b);
+        match ms.iter().find(|m| m.to_algebraic() == t) {
+            Some(m) => b = b.clone_with_move(m),
+            None => {
+                // the generator no longer offers the move: that is the violation's own business
+                println!("REPLAY-VIOLATION {} default-board: move {} of the path is not generated", which.id(), t);
+                return 1;
+            }
+        }
+        // every board on the way is part of the case
+        pc.check_state(&b);
+    }
+    if moves.trim().is_empty() {
+        pc.check_state(&b);
+    }
+    let v = rep.violations.lock().unwrap();
+    for x in v.iter() {
+        println!("REPLAY-VIOLATION sig={}", x.sig);
+    }
+    if v.is_empty() {
+        println!("REPLAY-OK {} default board + [{}]", which.id(), moves);
+        0
+    } else {
+        1
+    }
+}
+
 /// Builds the engine board of a model position and verifies the set-up took.
 pub fn setup(p: &Pos, rep: &Report, id: &str) -> Option<Board> {
     match eng::board_of(p) {
@@ -486,6 +586,20 @@ pub fn run(which: Which, tier: &str, seed: u64, out: &str) {
     total_transitions += gs.transitions;
     coverage.put("root_neighbourhood", stats_json(&gs).set("depth", depth).set("root_count", roots.len()));
     eprintln!("[{}] roots: {} states, {} transitions, {} merges, depth {} ({:.1}s)", which.id(), gs.states, gs.transitions, gs.merges, gs.max_depth, rep.elapsed());
+
+    // ---- the board the engine itself starts from: `Board::default()` (what `position startpos`
+    // and `ucinewgame` use), explored on its own so that its states are never merged with boards
+    // read from a FEN: anything a board carries besides its bitboards comes from its constructor
+    if !rep.saturated() {
+        let d: usize = if thorough { 6 } else { 5 };
+        pc.from_default.store(true, std::sync::atomic::Ordering::Relaxed);
+        let gd = explore(&[(Board::default(), 0)], d, max_states, &pc);
+        pc.from_default.store(false, std::sync::atomic::Ordering::Relaxed);
+        total_states += gd.states;
+        total_transitions += gd.transitions;
+        coverage.put("default_board_neighbourhood", stats_json(&gd).set("depth", d).set("root", "Board::default()"));
+        eprintln!("[{}] Board::default(): {} states, {} transitions, depth {} ({:.1}s)", which.id(), gd.states, gd.transitions, gd.max_depth, rep.elapsed());
+    }
 
     // ---- F: complete material classes (every state visited once; one-move transitions)
     let mut class_cov = Vec::new();
